@@ -191,6 +191,19 @@ def main():
                 got = both("savitzky_and_golay", f, rows, fcs, m)[:, 0]
                 if c["interior"]:
                     exp = np.array([r[0] / r[1] for r in c["res"]])
+                    # a narrow spectral line on a floor of zeros (a non-negative spectrum): the published kernel has NEGATIVE outer taps, the
+                    # smoothed value next to the line is negative - Coef / NormC of SavGol.tla evaluated for a unit spike two bins off and at the edge
+                    from fractions import Fraction as _F
+                    xk = int(round(x + off)) if abs(off) < 0.5 else x          # the centre snaps to the nearest grid point
+                    for dist_ in (2, (m - 1) // 2):
+                        j_ = xk + dist_
+                        if 1 <= j_ <= G:
+                            spike = np.zeros((1, G)); spike[0, j_ - 1] = 1.0
+                            want_ = float(_F(3 * (3 * m * m - 7 - 20 * dist_ * dist_), 4) / _F(m * (m * m - 4), 1))
+                            got_ = float(both("savitzky_and_golay", f, spike, fcs, m)[0, 0])
+                            if not np.isclose(got_, want_, rtol=1e-9, atol=1e-12):
+                                run.violation("kernel:savitzky_and_golay:spike", f"savitzky_and_golay(m={m}) at grid point {x} (+{off} df) of a unit line {dist_} bins above: got {got_}, "
+                                              f"the kernel's coefficient is {want_}", dict(kind="sg-spike", m=m, x=x, dist=dist_))
                     if not np.allclose(got, exp, rtol=RTOL, atol=1e-9):
                         run.violation("kernel:savitzky_and_golay", f"savitzky_and_golay(m={m}) at grid point {x} (+{off} df): got {got.tolist()}, exact {exp.tolist()}",
                                       dict(kind="sg", m=m, x=x, df=df, f0=f0, off=off))
